@@ -172,7 +172,8 @@ def check_lock(ctx):
         if kind != "return" or not (isinstance(v, ast.Call) and canon(v.func) == "self.__class__"):
             continue
         lits = A.term_strings(pc)
-        for terms, call in [(pc, v)]:
+        for terms0, call in A.expand_star_kwargs(v):
+            lits = A.term_strings(pc) | A.term_strings(terms0)
             for kw, attr in (("t", "self.t"), ("rv", "self.rv"), ("rv_err", "self.rv_err")):
                 a_ = A.get_arg(call, None, kw)
                 if a_ is None:
